@@ -25,6 +25,17 @@ CLAIMED = {
          'hypothesis linking rows to fold differences) - covered by the correspondence, which evaluates model and spec from rows; '
          'np.linalg.inv modelled by validated exact Gauss-Jordan; log is a table; axioms: Reals + functional_extensionality_dep.',
          'DESIGN.md section 7, C02'),
+ 'C10': ('Coq proof of a provenance invariant by induction over all finite operation sequences of the RDMs container model '
+         '(13 operations + from_partials) + in-Coq correspondence of real operation sequences step by step (exact, tagged values)',
+         'Theorems (closed under the global context, no axioms): every operation preserves "each entry is the source value of its RDM '
+         'and its two conditions\' source ids, NaN exactly for copies of one condition, zero diagonal, every tuple of descriptor values '
+         'occurs in the source"; hence for every reachable state; symmetry; stable sort; n recovered from vector length for all n. '
+         'Correspondence: random sequences over tagged objects run on the real RDMs class, the full observable state (vectors, '
+         'get_matrices(), descriptors, index descriptors) compared inside Coq after every step.',
+         'Admissible arguments only (permutations for reorder, same conditions for append/concat); from_partials is modelled and '
+         'compared but its entry theorem is not yet proved; to_df rows are checked by the Python oracle only; the library-managed '
+         'index descriptors are modelled and compared but are not part of the invariant.',
+         'DESIGN.md section 7, C10'),
 }
 NA_REASON = 'check not built yet in this round (work in progress; see DESIGN.md section 7)'
 
